@@ -35,10 +35,44 @@ TRUSTED = [
     'modelled, not verified (tied by correspondence only): CPython 3.12 http.cookies (_quote, _unquote, '
     '_CookiePattern as a deterministic scanner, Morsel.set, BaseCookie.__parse_string), base64 (lib/Base64.v), '
     'HMAC-MD5 (lib/HmacMd5.v, used by the correspondence only), UTF-8 (lib/Utf8.v)',
-    'not modelled: cookie attributes (path, domain, expires, max_age, secure, httponly, samesite), '
-    'delete_cookie, BaseResponse.copy, CookieDict.decode/getunicode; secrets given as bytes',
+    'not modelled in C15: cookie options other than those of delete_cookie (they are modelled for C14, '
+    'model/Headers.v, and do not come back from the client); BaseResponse.copy of cookies whose names start with $ '
+    'or whose option values lie outside the cookie token alphabet (SimpleCookie.load drops / rejects them); '
+    'CookieDict with encodings other than utf8 / latin1; direct mutation of request.environ or of the cached '
+    'CookieDict; pinned to CPython 3.12.1 http.cookies (_unquote was rewritten in later 3.12 releases)',
     'the WSGI server is assumed to hand the Cookie header to the application as the Latin-1 decoding of the '
     'bytes the client sent back (PEP 3333 native string)',
+]
+# AUDIT_BRIEF.md item 2: every public name of the anchored code that can influence what is read back
+API_SURFACE = [
+    ('common_helpers.cookie_encode(data, key)', 'covered by scn (through set_cookie with a secret: str and bytes secrets, '
+                                                'non-ASCII and unencodable secrets)'),
+    ('common_helpers.cookie_decode(data, key)', 'covered by scn reads with a secret: untouched, every tamper kind, '
+                                                'other secret, plain value, re-signed messages (bad base64, bad pickle)'),
+    ('common_helpers.tob / touni', 'covered (str and bytes secrets; unencodable secret raises)'),
+    ('BaseResponse.set_cookie(name, value, secret)', 'covered by scn / resp (name classes, value types, 4096 limit, '
+                                                     'TypeError without secret)'),
+    ('BaseResponse.set_cookie(**options)', 'excluded here: options do not come back from the client; covered by C14 '
+                                           '(every option key / value type, F35)'),
+    ('BaseResponse.delete_cookie', 'covered by resp (expired empty cookie reads as absent; attributes stay on the morsel)'),
+    ('BaseResponse.copy', 'covered by resp (ops on the copy and on the original after copy, second copy)'),
+    ('BaseResponse.headerlist (Set-Cookie part)', 'covered by scn / resp (transcoding, one header per cookie, dict order)'),
+    ('HTTPResponse.apply (cookies)', 'excluded here: covered by C14 op apply / apply_err'),
+    ('PropsMixin.cookies', 'covered by scn / parse (any Cookie header incl. malformed, absent, empty; cached; '
+                           'invalidated by request[HTTP_COOKIE] = ..., del, __init__)'),
+    ('PropsMixin.get_cookie(key, default, secret)', 'covered by scn: 1-4 reads per request, default sentinel, '
+                                                    'secret None / empty / right / other / bytes'),
+    ('PropsMixin.headers (WSGIHeaderDict)', 'covered by read @hdr (getitem/get/raw/in/keys/len/iter, read-only setters, '
+                                            'CGI keys)'),
+    ('CookieDict item access / get / in', 'covered by read @item'),
+    ('CookieDict.getunicode / __getattr__', 'covered by read @attr (utf8, latin1, default, dunder names)'),
+    ('CookieDict.decode(encoding)', 'covered by read @decode (None, latin1; second decode; re-decode with another '
+                                    'encoding raises)'),
+    ('CookieDict._fix for non-str values', 'excluded: SimpleCookie only produces str values'),
+    ('CookieDict.input_encoding (class attribute)', 'excluded: only changed by the application; default utf8 covered'),
+    ('BaseRequest.__setitem__/__delitem__/__init__/copy', 'covered by reads @sethdr / @reinit / @copyreq'),
+    ('config / setup()', 'excluded: no configuration key influences cookies'),
+    ('time zone / locale', 'excluded: no date is parsed on the cookie read path (expires rendering: C14, UTC only)'),
 ]
 ASSUMPTIONS = ['the client returns the cookie pair exactly as emitted in Set-Cookie (name=value, no attributes)',
                'HMAC-MD5 is unforgeable (only used to read the reduction theorems as the property)']
@@ -207,6 +241,15 @@ def corpus():
         scn([('a', obj, S)], reads=[('a', 'other')]),
         scn([('a', obj, S)], rsecret='new-secret', reads=[('a', S)]),
         scn([('a', obj, S), ('b', 'plain', None)], reads=[('a', None), ('b', S), ('a', S), ('b', None)]),
+        # the other read paths of request.cookies, and updates of the Cookie header between reads
+        scn([('a', 'caf\xe9', None)], reads=[['@item', 'a'], ['@attr', 'a', 'utf8'], ['@attr', 'a', 'latin1'], ['@decode', None],
+                                             ['@decode', 'latin1'], ['@hdr']]),                 # F18d: attribute read of Latin-1
+        scn([('a', '\u044f', None)], reads=[['@item', 'a'], ['@attr', 'a', 'utf8'], ['@decode', None]]),   # attribute read undoes F18a
+        scn([('a', '', None)], reads=[['@item', 'a'], ['@attr', 'a', 'utf8']]),
+        scn([('a', 'one', None)], reads=[['@sethdr', 'a=two; b=3'], ('a', None), ['@item', 'b'], ['@sethdr', None], ('a', None),
+                                         ['@hdr'], ['@reinit', 'a="thr\\145e"'], ['@attr', 'a', 'utf8'], ['@copyreq'], ('a', None),
+                                         ['@sethdr', 'a=two; b=3'], ['@sethdr', 'a=two; b=3'], ['@decode', None]]),
+        scn([('a', obj, S)], reads=[['@copyreq'], ('a', S), ['@sethdr', 'a=x@y'], ['@item', 'a'], ['@decode', None], ['@hdr']]),
         # a response and its copy (redirect() copies the response): later changes must not leak either way
         dict(mode='resp', ops=[['set', 'r', 'a', 'v1', None], ['copy'], ['set', 'c', 'a', 'v2', None]],
              reads=[['a', None]]),
@@ -408,6 +451,13 @@ def add_reads(rng, c):
     for _ in range(rng.randrange(1, 4)):
         reads.append([rng.choice(names) if rng.random() < 0.9 else 'zz',
                       rng.choice(secs + secs + ['other', 'k2', None, ''])])
+    if rng.random() < 0.6:                 # the other read paths, and updates of the header between reads
+        n = rng.choice(names)
+        extra = [['@item', n], ['@attr', n, rng.choice(['utf8', 'utf8', 'latin1'])], ['@decode', rng.choice([None, None, 'latin1'])],
+                 ['@hdr'], ['@copyreq'], ['@sethdr', rng.choice([None, '', n + '=replaced', 'zz=1; ' + n + '="q\\"x"', gen_parse(rng)])],
+                 ['@reinit', rng.choice(['', n + '=fresh', gen_parse(rng)])]]
+        for _ in range(rng.randrange(1, 4)):
+            reads.insert(rng.randrange(0, len(reads) + 1), rng.choice(extra))
     c['reads'] = reads
     return c
 
@@ -453,6 +503,8 @@ def gen(rng, n):
             yield gen_resp(rng)
         elif r < 0.55:
             c = gen_scn(rng)
+            if rng.random() < 0.15:
+                c['bytes_secret'] = True
             yield add_reads(rng, c) if rng.random() < 0.3 else c
         elif r < 0.8:
             yield dict(mode='parse', s=gen_parse(rng))
@@ -522,7 +574,7 @@ def read_once(rq, proxy, case, name, secret):
     from http.cookies import CookieError
     proxy.calls.clear()
     try:
-        got = rq.get_cookie(name, default=SENTINEL, secret=secret)
+        got = rq.get_cookie(name, default=SENTINEL, secret=as_secret(case, secret))
     except CookieError:
         g = ['cookie_error']
     except Exception:
@@ -545,6 +597,116 @@ def read_once(rq, proxy, case, name, secret):
     if len(proxy.calls) > 1:
         return g, ['many'] + [list(x) for x in proxy.calls]
     return g, (list(proxy.calls[0]) if proxy.calls else None)
+
+
+def read_kind(rd):
+    """typed reads carry a leading '@kind'; a bare [name, secret] is a get_cookie read"""
+    return rd[0][1:] if isinstance(rd[0], str) and rd[0].startswith('@') else 'get'
+
+
+def do_read(rq, proxy, case, rd):
+    """one typed read on a request: canonical result"""
+    from http.cookies import CookieError
+    kind = read_kind(rd)
+    if kind == 'get':
+        return list(read_once(rq, proxy, case, rd[0], rd[1]))
+    try:
+        if kind == 'hdr':
+            h = rq.headers
+            try:
+                v = h['Cookie']
+            except KeyError:
+                v = None
+            probs = []
+            if h.get('cookie') != v or h.raw('COOKIE') != v or (('Cookie' in h) != (v is not None)):
+                probs.append('get/raw/in')
+            if ('Cookie' in h.keys()) != (v is not None) or len(h) != len(list(h)) \
+                    or ('Content-Type' in h) != ('Content-Type' in h.keys()):
+                probs.append('keys/len')
+            for f in (lambda: h.__setitem__('Cookie', 'x'), lambda: h.__delitem__('Cookie')):
+                try:
+                    f()
+                    probs.append('writable')
+                except TypeError:
+                    pass
+            if probs:
+                return ['inconsistent WSGIHeaderDict: %s' % probs]
+            return ['s', None if v is None else cps(v)]
+        c = rq.cookies
+        if kind == 'item':
+            v = c.get(rd[1])
+            if (rd[1] in c) != (v is not None):
+                return ['inconsistent CookieDict: in/get']
+            return ['s', None if v is None else cps(v)]
+        if kind == 'attr':
+            if rd[2] == 'latin1':
+                v = c.getunicode(rd[1], encoding='latin1')
+            else:
+                v = c.getunicode(rd[1])
+                if c.__getattr__(rd[1]) != v or c.getunicode(rd[1], 'dflt') != ('dflt' if v is None else v):
+                    return ['inconsistent CookieDict: getunicode/__getattr__/default']
+                try:
+                    c.__getattr__('__no_such_dunder__')
+                    return ['inconsistent CookieDict: dunder attribute answered']
+                except AttributeError:
+                    pass
+            return ['s', None if v is None else cps(v)]
+        if kind == 'decode':
+            try:
+                d = c.decode(rd[1]) if rd[1] else c.decode()
+            except UnicodeError:
+                return ['d', 'UnicodeError']
+            probs = []
+            if dict(d.decode()) != dict(d) or d.input_encoding != (rd[1] or 'utf8'):
+                probs.append('second decode')
+            try:
+                d.decode('utf8' if rd[1] == 'latin1' else 'latin1')
+                probs.append('re-decode with another encoding accepted')
+            except TypeError:
+                pass
+            if probs:
+                return ['inconsistent CookieDict.decode: %s' % probs]
+            return ['d', [[cps(k), cps(v)] for k, v in d.items()]]
+    except CookieError:
+        return 'CookieError'
+    raise AssertionError(rd)
+
+
+def enc_read(rd):
+    kind = read_kind(rd)
+    if kind == 'get':
+        return [0] + enc_str(cps(rd[0])) + opt_str(rd[1])
+    if kind == 'item':
+        return [1] + enc_str(cps(rd[1]))
+    if kind == 'attr':
+        return [2, 0 if rd[2] == 'latin1' else 1] + enc_str(cps(rd[1]))
+    if kind == 'decode':
+        return [3, 0 if rd[1] == 'latin1' else 1]
+    if kind == 'hdr':
+        return [4]
+    if kind in ('sethdr', 'reinit'):
+        return [5] + opt_str(rd[1])
+    return None                                    # copyreq: no effect on what is read
+
+
+def enc_reads(reads):
+    chunks = [c for c in (enc_read(r) for r in reads) if c is not None]
+    return [len(chunks)] + [x for c in chunks for x in c]
+
+
+def dec_qres(q, case):
+    tag = q.int()
+    if tag == 0:
+        return [dec_gres(q, case), q.str() if q.int() else None]
+    if tag == 1:
+        return ['s', q.str() if q.int() else None]
+    if tag == 2:
+        if not q.int():
+            return ['d', 'UnicodeError']
+        return ['d', q.list(lambda z: [z.str(), z.str()])]
+    if tag == 3:
+        return 'CookieError'
+    return 'model_tag_%d' % tag
 
 
 def project(obs, case):
@@ -626,6 +788,17 @@ def run_resp(case):
         ch.pickle = saved
 
 
+def as_secret(case, s):
+    """the secret as the application passes it: the str, or (case['bytes_secret']) its UTF-8 bytes — tob() leaves
+    bytes alone, so both must behave alike"""
+    if case.get('bytes_secret') and isinstance(s, str) and s:
+        try:
+            return s.encode('utf8')
+        except UnicodeEncodeError:
+            return s
+    return s
+
+
 def run_scn(case):
     from http.cookies import CookieError
     import ombott.common_helpers as ch
@@ -638,7 +811,7 @@ def run_scn(case):
         resp = Response()
         for i, c in enumerate(case['cookies']):
             try:
-                resp.set_cookie(c['name'], c['value'], secret=c['secret'])
+                resp.set_cookie(c['name'], c['value'], secret=as_secret(case, c['secret']))
             except UnicodeEncodeError:
                 return dict(st='set_error', i=i, e=4)
             except TypeError:
@@ -653,7 +826,7 @@ def run_scn(case):
             return dict(st='emit_error')
         wires = [cps(v) for k, v in hl if k == 'Set-Cookie']
         hdr = tamper(case['tamper'], wires, case['cookies'])
-        rq = Request(environ(HTTP_COOKIE=uncps(hdr)))
+        rq = Request(environ(HTTP_COOKIE=uncps(hdr), CONTENT_TYPE='text/plain'))
         try:
             cookies = [[cps(k), cps(v)] for k, v in rq.cookies.items()]
         except CookieError:
@@ -661,10 +834,26 @@ def run_scn(case):
         g, loads = read_once(rq, proxy, case, case['rname'], case['rsecret'])
         obs = dict(st='ok', wires=wires, hdr=hdr, cookies=cookies, got=g, loads=loads)
         more, fresh = [], []
-        for name, sec in case.get('reads', []):
-            more.append(list(read_once(rq, proxy, case, name, sec)))            # the SAME request object
-            rq2 = Request(environ(HTTP_COOKIE=uncps(hdr)))                       # reference: a fresh request
-            fresh.append(list(read_once(rq2, proxy, case, name, sec)))
+        cur = uncps(hdr)                      # the Cookie header in force (None = no HTTP_COOKIE in the environ)
+        for rd in case.get('reads', []):
+            kind = read_kind(rd)
+            if kind == 'sethdr':
+                if rd[1] is None:
+                    del rq['HTTP_COOKIE']
+                else:
+                    rq['HTTP_COOKIE'] = rd[1]
+                cur = rd[1]
+                continue
+            if kind == 'reinit':
+                rq.__init__(environ(HTTP_COOKIE=rd[1]))
+                cur = rd[1]
+                continue
+            if kind == 'copyreq':
+                rq = rq.copy()
+                continue
+            more.append(do_read(rq, proxy, case, rd))                              # the SAME request object
+            env2 = environ() if cur is None else environ(HTTP_COOKIE=cur)
+            fresh.append(do_read(Request(env2), proxy, case, rd))                   # reference: a fresh request
         obs['more'] = more
         obs['fresh'] = fresh
         return obs
@@ -704,7 +893,7 @@ def encode(case):
     t = case['tamper']
     return ([0] + enc_list(case['cookies'], spec) + [t['kind'], t['a'], t['b']] + enc_str(t['repl'])
             + enc_str(cps(case['rname'])) + opt_str(case['rsecret'])
-            + enc_list(case.get('reads', []), lambda r: enc_str(cps(r[0])) + opt_str(r[1])))
+            + enc_reads(case.get('reads', [])))
 
 
 def dec_pres(r):
@@ -772,7 +961,7 @@ def decode(out, case):
     cookies = dec_pres(r)
     got = dec_gres(r, case)
     loads = r.str() if r.int() else None
-    more = r.list(lambda q: [dec_gres(q, case), q.str() if q.int() else None])
+    more = r.list(lambda q: dec_qres(q, case))
     return dict(st='ok', wires=wires, hdr=hdr, cookies=cookies, got=got, loads=loads, more=more)
 
 
@@ -857,18 +1046,53 @@ def oracle(case, obs):
         return f
     # further reads on the SAME request: each must be what a fresh request returns for that (name, secret),
     # i.e. independent of the reads made before, and must satisfy the property on its own
-    reads = case.get('reads', [])
-    for i, (name, sec) in enumerate(reads):
-        g, l = obs['more'][i]
-        fg, fl = obs['fresh'][i]
-        if g != fg:
-            return ('read %d on the same request, get_cookie(%r, secret=%r), returned %s but a fresh request with the '
-                    'same Cookie header returns %s: a read depends on the reads before it'
-                    % (i + 2, name, sec, describe(g), describe(fg)))
-        f = check_read(case, obs['hdr'], name, sec, g, l)
-        if f:
-            return 'read %d: %s' % (i + 2, f)
+    j = 0
+    replaced = False                       # the Cookie header was replaced: only independence is checked afterwards
+    for i, rd in enumerate(case.get('reads', [])):
+        kind = read_kind(rd)
+        if kind in ('sethdr', 'reinit'):
+            replaced = True
+            continue
+        if kind == 'copyreq':
+            continue
+        got, ref = obs['more'][j], obs['fresh'][j]
+        j += 1
+        label = 'read %d' % (i + 2)
+        if isinstance(got, list) and got and isinstance(got[0], str) and got[0].startswith('inconsistent'):
+            return '%s: %s' % (label, got[0])
+        if kind == 'get':
+            g, l = got
+            if g != ref[0]:
+                return ('%s on the same request, get_cookie(%r, secret=%r), returned %s but a fresh request with the '
+                        'same Cookie header returns %s: a read depends on the reads before it'
+                        % (label, rd[0], rd[1], describe(g), describe(ref[0])))
+            if not replaced:
+                f = check_read(case, obs['hdr'], rd[0], rd[1], g, l)
+                if f:
+                    return '%s: %s' % (label, f)
+            continue
+        if got != ref:
+            return ('%s on the same request (%s) returned %s but a fresh request with the header in force returns %s: '
+                    'a read depends on the reads before it' % (label, rd, str(got)[:60], str(ref)[:60]))
+        if replaced or case['tamper']['kind'] != 0 or kind not in ('item', 'attr'):
+            continue
+        # the untouched plain cookie through the other read paths of request.cookies
+        mine = [c for c in case['cookies'] if c['name'] == rd[1]]
+        if mine and not mine[-1]['secret'] and isinstance(mine[-1]['value'], str) and got != 'CookieError':
+            want = ['s', cps(mine[-1]['value'])]
+            if kind == 'item' and got != want:
+                return ('%s: plain cookie does not round-trip through request.cookies[name]: set %r, read %s'
+                        % (label, mine[-1]['value'][:20], describe_s(got)))
+            if kind == 'attr' and rd[2] != 'latin1' and got != want:
+                return ('%s: plain cookie does not round-trip through request.cookies attribute access / getunicode: '
+                        'set %r, read %s' % (label, mine[-1]['value'][:20], describe_s(got)))
     return None
+
+
+def describe_s(got):
+    if got == 'CookieError':
+        return got
+    return 'default' if got[1] is None else repr(uncps(got[1])[:20])
 
 
 def check_read(case, hdr, rname, rsec, got, loads):
@@ -922,7 +1146,8 @@ def _read_cookies(case, what):
     """the cookie(s) the failing read was about: the read named in the oracle message ('read N: ...'), or, for a
     model/implementation disagreement, every read of the scenario"""
     import re
-    names = [case['rname']] + [r[0] for r in case.get('reads', [])]
+    names = [case['rname']] + [(r[0] if read_kind(r) == 'get' else (r[1] if len(r) > 1 and isinstance(r[1], str) else None))
+                               for r in case.get('reads', [])]
     m = re.match(r'read (\d+):', str(what))
     if m:
         names = [names[int(m.group(1)) - 1]]
@@ -936,15 +1161,25 @@ def _read_cookies(case, what):
     return out
 
 
+def pred_attr_latin1(case, what, m):
+    """request.cookies.<name> / getunicode re-reads the value as UTF-8: values with a code point in 128..255 come
+    back as the default (or as other text when they happen to be valid UTF-8)"""
+    if case.get('mode') != 'scn' or case['tamper']['kind'] != 0 or 'attribute access' not in str(what):
+        return False
+    return any(isinstance(c['value'], str) and any(127 < ord(ch) < 256 for ch in c['value'])
+               for c in _read_cookies(case, what))
+
+
 def pred_above_255(case, what, m):
-    if not _plain_rt(case, what):
+    if not _plain_rt(case, what) or 'attribute access' in str(what):
         return False
     return any(isinstance(c['value'], str) and any(ord(ch) > 255 for ch in c['value'])
                and not c['name'].startswith('$') for c in _read_cookies(case, what))
 
 
 def pred_empty(case, what, m):
-    return bool(_plain_rt(case, what)) and any(c['value'] == '' for c in _read_cookies(case, what))
+    return bool(_plain_rt(case, what)) and 'request.cookies' not in str(what) \
+        and any(c['value'] == '' for c in _read_cookies(case, what))
 
 
 def pred_dollar(case, what, m):
@@ -961,6 +1196,7 @@ def pred_dollar(case, what, m):
 PREDICATES = {
     'cookie_value_has_codepoint_above_255': pred_above_255,
     'cookie_value_empty': pred_empty,
+    'cookie_attribute_read_of_latin1_value': pred_attr_latin1,
     'cookie_name_starts_with_dollar': pred_dollar,
 }
 
@@ -1048,7 +1284,7 @@ MANIFEST = dict(
 COVERAGE_TARGETS = {
     'ombott/common_helpers.py': ['cookie_encode', 'cookie_decode', 'tob', 'touni'],
     'ombott/response.py': ['BaseResponse.set_cookie', 'BaseResponse.delete_cookie', 'BaseResponse.copy',
-                           'BaseResponse.headerlist', 'http_date'],
+                           'BaseResponse.headerlist'],
     'ombott/request_pkg/props_mixin.py': ['PropsMixin.cookies', 'PropsMixin.get_cookie', 'PropsMixin.headers'],
     'ombott/request_pkg/helpers.py': ['CookieDict.', 'WSGIHeaderDict.'],
 }
